@@ -37,6 +37,16 @@ static void c03_run(vf_case *c)
         run_opts_str(&o, buf, sizeof buf); vf_desc(c, "%s", buf);
         fact_do(P, &A, &opt, mypc, NULL, 0, 0, &R); info = R.info; Lp = &R.L; Up = &R.U;
         vf_tag(c, "%s", tall ? "tall" : "square");
+        /* a third of the successful direct factorizations is refactored on the same pattern with new values (row pivots and storage reused,
+           remembered pivots kept or abandoned; square and tall): the structure judged below is then the refactorization's */
+        if (info == 0 && R.have_LU && n >= 2 && rng_bool(r, 0.35)) {
+            int kind = rng_int(r, 0, 3); vf_mat A2; mat_revalue(r, P, &A, kind, R.perm_r, R.perm_c, &A2);
+            int *pr_in = malloc(sizeof(int) * (size_t)(m + 1)); memcpy(pr_in, R.perm_r, sizeof(int) * (size_t)m);
+            fact_redo(P, &A2, SamePattern_SameRowPerm, NULL, 0, &R); info = R.info;
+            vf_tag(c, "refactor-%s", tall ? "tall" : "square"); if (info == 0) vf_tag(c, memcmp(pr_in, R.perm_r, sizeof(int) * (size_t)m) ? "reuse=abandoned" : "reuse=kept");
+            if (info == 0 && !is_perm(R.perm_r, m)) vf_viol(c, "structure", "gstrf refactorization (SamePattern_SameRowPerm, %dx%d): perm_r is not a permutation of 0..%d", m, n, m - 1);
+            free(pr_in); mat_free(&A); A = A2;
+        }
     } else if (route <= 4) {
         run_opts_str(&o, buf, sizeof buf); vf_desc(c, "%s", buf);
         mk_sparse(P, &A, o.rowmajor, &SA); mk_dense(P, n, 0, n > 0 ? n : 1, NULL, &SB, 0);
